@@ -8,17 +8,19 @@ namespace Lbfgsb
 variable {α ε : Type}
 
 /-- the stateless specification of a gradient request (unscaled) -/
-def gradSpec (u : SFUser α ε) : GradMode → Vec α → Except ε (Vec α)
+def gradSpec [LT α] [DecidableLT α] [OfNat α 0] (u : SFUser α ε) (lb ub : Vec α) :
+    GradMode → Vec α → Except ε (Vec α)
   | .callable, x => u.Gr x
   | .fd, x => do
     let f ← u.F x
     let vs ← (u.fdPts x f).mapM u.F
-    pure (u.fdComb x f vs)
+    pure (zeroFixed lb ub (u.fdComb x f vs))
 
 /-- cache coherence: what is flagged as up to date is what the user's functions return at
 the cached point -/
-def Coh (u : SFUser α ε) (s : SF α) : Prop :=
-  (s.fUpd = true → u.F s.x = .ok s.f) ∧ (s.gUpd = true → gradSpec u s.mode s.x = .ok s.g)
+def Coh [LT α] [DecidableLT α] [OfNat α 0] (u : SFUser α ε) (s : SF α) : Prop :=
+  (s.fUpd = true → u.F s.x = .ok s.f) ∧
+    (s.gUpd = true → gradSpec u s.lb s.ub s.mode s.x = .ok s.g)
 
 def fcalls (ps : List (Vec α)) : List (Call α) := ps.map (Call.mk .F)
 
@@ -59,10 +61,11 @@ theorem callFs_ok {u : SFUser α ε} {ps : List (Vec α)} {s s' : SF α} {vs : L
           simp [fcalls, Nat.add_assoc, Nat.add_comm 1]
 
 section
-variable [LinearOrder α]
+variable [LinearOrder α] [OfNat α 0]
 
 theorem updateX_spec (s : SF α) (x : Vec α) :
-    (s.updateX x).x = x ∧ (s.updateX x).mode = s.mode ∧ (s.updateX x).scale = s.scale ∧
+    (s.updateX x).x = x ∧ (s.updateX x).mode = s.mode ∧ (s.updateX x).lb = s.lb ∧
+    (s.updateX x).ub = s.ub ∧ (s.updateX x).scale = s.scale ∧
     (s.updateX x).nfev = s.nfev ∧ (s.updateX x).ngev = s.ngev ∧ (s.updateX x).log = s.log ∧
     (x = s.x → s.updateX x = s) := by
   unfold SF.updateX
@@ -83,6 +86,7 @@ theorem updateX_coh {u : SFUser α ε} {s : SF α} (h : Coh u s) (x : Vec α) :
 
 theorem updFun_ok {u : SFUser α ε} {s s' : SF α} (hc : Coh u s) (h : s.updFun u = .ok s') :
     Coh u s' ∧ s'.fUpd = true ∧ u.F s.x = .ok s'.f ∧ s'.x = s.x ∧ s'.mode = s.mode ∧
+    s'.lb = s.lb ∧ s'.ub = s.ub ∧
     s'.scale = s.scale ∧ s'.ngev = s.ngev ∧ s'.gUpd = s.gUpd ∧ s'.g = s.g ∧
     (s.fUpd = true → s' = s) ∧
     (s.fUpd = false → s'.nfev = s.nfev + 1 ∧ s'.log = s.log ++ [Call.mk .F s.x]) := by
@@ -90,7 +94,7 @@ theorem updFun_ok {u : SFUser α ε} {s s' : SF α} (hc : Coh u s) (h : s.updFun
   by_cases hf : s.fUpd = true
   · simp [hf, pure, Except.pure] at h
     subst h
-    exact ⟨hc, hf, hc.1 hf, rfl, rfl, rfl, rfl, rfl, rfl, fun _ => rfl, fun h' => by simp [hf] at h'⟩
+    exact ⟨hc, hf, hc.1 hf, rfl, rfl, rfl, rfl, rfl, rfl, rfl, rfl, fun _ => rfl, fun h' => by simp [hf] at h'⟩
   · have hf' : s.fUpd = false := by simpa using hf
     simp only [hf', Bool.false_eq_true, if_false] at h
     cases h1 : s.callF u s.x with
@@ -101,20 +105,20 @@ theorem updFun_ok {u : SFUser α ε} {s s' : SF α} (hc : Coh u s) (h : s.updFun
       obtain ⟨hF, hs1⟩ := callF_ok h1
       subst h
       subst hs1
-      refine ⟨⟨fun _ => hF, ?_⟩, rfl, hF, rfl, rfl, rfl, rfl, rfl, rfl, ?_, fun _ => ⟨rfl, rfl⟩⟩
+      refine ⟨⟨fun _ => hF, ?_⟩, rfl, hF, rfl, rfl, rfl, rfl, rfl, rfl, rfl, rfl, ?_, fun _ => ⟨rfl, rfl⟩⟩
       · exact hc.2
       · intro h'; simp [hf'] at h'
 
 theorem updGrad_ok {u : SFUser α ε} {s s' : SF α} (hc : Coh u s) (h : s.updGrad u = .ok s') :
-    Coh u s' ∧ s'.gUpd = true ∧ gradSpec u s.mode s.x = .ok s'.g ∧ s'.x = s.x ∧
-    s'.mode = s.mode ∧ s'.scale = s.scale ∧
+    Coh u s' ∧ s'.gUpd = true ∧ gradSpec u s.lb s.ub s.mode s.x = .ok s'.g ∧ s'.x = s.x ∧
+    s'.mode = s.mode ∧ s'.lb = s.lb ∧ s'.ub = s.ub ∧ s'.scale = s.scale ∧
     (s.gUpd = true → s' = s) ∧
     (s.fUpd = true → s'.f = s.f ∧ s'.fUpd = true) := by
   unfold SF.updGrad at h
   by_cases hg : s.gUpd = true
   · simp [hg, pure, Except.pure] at h
     subst h
-    exact ⟨hc, hg, hc.2 hg, rfl, rfl, rfl, fun _ => rfl, fun h => ⟨rfl, h⟩⟩
+    exact ⟨hc, hg, hc.2 hg, rfl, rfl, rfl, rfl, rfl, fun _ => rfl, fun h => ⟨rfl, h⟩⟩
   · have hg' : s.gUpd = false := by simpa using hg
     simp only [hg', Bool.false_eq_true, if_false] at h
     cases hm : s.mode with
@@ -125,7 +129,7 @@ theorem updGrad_ok {u : SFUser α ε} {s s' : SF α} (hc : Coh u s) (h : s.updGr
       | ok g =>
         simp [hG, bind, Except.bind, pure, Except.pure] at h
         subst h
-        refine ⟨⟨fun hf => ?_, fun _ => ?_⟩, rfl, ?_, rfl, hm.symm ▸ rfl, rfl, ?_, fun hf => ⟨rfl, hf⟩⟩
+        refine ⟨⟨fun hf => ?_, fun _ => ?_⟩, rfl, ?_, rfl, hm.symm ▸ rfl, rfl, rfl, rfl, ?_, fun hf => ⟨rfl, hf⟩⟩
         · exact hc.1 hf
         · simp [gradSpec, hm, hG]
         · simp [gradSpec, hG]
@@ -135,7 +139,7 @@ theorem updGrad_ok {u : SFUser α ε} {s s' : SF α} (hc : Coh u s) (h : s.updGr
       cases h1 : s.updFun u with
       | error e => simp [h1, bind, Except.bind] at h
       | ok s1 =>
-        obtain ⟨hc1, hf1, hF1, hx1, hm1, hsc1, -, -, -, hsame, -⟩ := updFun_ok hc h1
+        obtain ⟨hc1, hf1, hF1, hx1, hm1, hlb1, hub1, hsc1, -, -, -, hsame, -⟩ := updFun_ok hc h1
         cases h2 : SF.callFs u { s1 with ngev := s1.ngev + 1 } (u.fdPts s1.x s1.f) with
         | error e => simp [h1, h2, bind, Except.bind] at h
         | ok r =>
@@ -144,13 +148,14 @@ theorem updGrad_ok {u : SFUser α ε} {s s' : SF α} (hc : Coh u s) (h : s.updGr
           obtain ⟨hM, hs2⟩ := callFs_ok h2
           subst h
           subst hs2
-          have hspec : gradSpec u .fd s.x = .ok (u.fdComb s1.x s1.f vs) := by
+          have hspec : gradSpec u s.lb s.ub .fd s.x =
+              .ok (zeroFixed s1.lb s1.ub (u.fdComb s1.x s1.f vs)) := by
             simp only [gradSpec, hF1, bind, Except.bind]
-            rw [← hx1, hM]
+            rw [← hx1, hM, hlb1, hub1]
             rfl
-          refine ⟨⟨fun _ => ?_, fun _ => ?_⟩, rfl, ?_, hx1, ?_, hsc1, ?_, ?_⟩
+          refine ⟨⟨fun _ => ?_, fun _ => ?_⟩, rfl, ?_, hx1, ?_, hlb1, hub1, hsc1, ?_, ?_⟩
           · simpa [hx1] using hF1
-          · simpa [hm1, hm, hx1] using hspec
+          · simpa [hm1, hm, hx1, hlb1, hub1] using hspec
           · simpa using hspec
           · simpa [hm] using hm1
           · intro h'; simp [hg'] at h'
